@@ -2,7 +2,9 @@ package discovery
 
 import (
 	"bytes"
+	"errors"
 	"fmt"
+	"github.com/cloudflare/pint/internal/comments"
 	"log/slog"
 	"regexp"
 	"slices"
@@ -383,9 +385,16 @@ func countCommits(changes []*git.FileChange) int {
 
 func entriesWithPathErrors(entries []Entry) (match []Entry) {
 	for _, entry := range entries {
-		if entry.PathError != nil {
-			match = append(match, entry)
+		if entry.PathError == nil {
+			continue
 		}
+		// A malformed or disallowed control comment doesn't stop the file from being parsed.
+		var ce comments.CommentError
+		var oe comments.OwnerError
+		if errors.As(entry.PathError, &ce) || errors.As(entry.PathError, &oe) {
+			continue
+		}
+		match = append(match, entry)
 	}
 	return match
 }
